@@ -59,8 +59,10 @@ package lang
 //@   ensures dispatch.SliceToArrayPointer: istype(instr, *ssa.SliceToArrayPointer) ==> called(visitor.DoSliceArrayToPointer, instr.(*ssa.SliceToArrayPointer))
 
 //@ func IsNillableType
-//@   property C14
+//@   property C14 C01
 //@   pure
+//@   ensures pointer: istype(t, *types.Pointer) ==> result
+//@   ensures named: istype(t, *types.Named) ==> (result <==> IsNillableType(t.Underlying()))
 
 // C02: MatchNilCheck recognises exactly `x == nil` / `x != nil` on an error value;
 // the boolean says which of the two, the value is the operand that is not the nil
